@@ -233,6 +233,7 @@ def run(prog, tier):
                "under src >= dest, never set back), VIEW-SOURCES (each view reads the field whose role the "
                "mutator defines), INIT-SHAPE (n+1 fresh rows).  Decides the invariant clause of the property, "
                "not the behaviour of networkx on foreign graphs.")
+    FULL["on"] = (tier == "thorough")
     analyse(R, prog)
     return R
 
@@ -295,38 +296,77 @@ def analyse(R, prog):
     R.floor("OWN", nsites, 20)
 
     # ---------------------------------------------------------------- per class
+    # HISTORY-SEMANTICS: each class folded over bounded update histories against the set-of-edges model (sa/props/_graph_fold.py).  A
+    # refuted history is a finding; a confirmed class turns findings of the shape rules below into undecided shapes.
+    from . import _graph_fold
+    from ._shared import merge_filtered
+    R0 = R
     for cname, spec in SPEC.items():
         ci = classes[cname]
-        fields = set(spec["rows"] + [spec["set"]] + spec["order"])
-        if spec["counter"]:
-            fields.add(spec["counter"])
-        if spec.get("flag"):
-            fields.add(spec["flag"])
-        writers = {}
-        for mname, fi in ci.methods.items():
-            ev = extract_events(fi, fields)
-            if ev:
-                writers[mname] = (fi, ev)
-        R.count("mutator methods analysed", len(writers))
-        for need in ("__init__", "add_edge"):
-            if need not in writers:
-                raise AnalysisError("%s.%s writes no representation field (anchor vanished)" % (cname, need))
-        check_init(R, prog, cname, spec, *writers["__init__"])
-        roles = check_add_edge(R, prog, cname, spec, *writers["add_edge"])
-        for mname, (fi, ev) in sorted(writers.items()):
-            if mname in ("__init__", "add_edge"):
-                continue
-            if cname == "Graph" and mname == "remove_edge":
-                check_remove_edge(R, prog, cname, spec, fi, ev)
-            elif cname == "Graph" and mname == "update_vertex_number":
-                check_update_vertex_number(R, prog, cname, spec, fi, ev)
-            else:
-                check_generic_mutator(R, prog, cname, spec, fi, ev)
-        check_views(R, prog, cname, spec, ci, roles)
+        v = _graph_fold.verdict(prog, cname, FULL.get("on", False))
+        anchor = ci.methods.get("add_edge") or next(iter(ci.methods.values()))
+        if v[0] is True:
+            R0.ok("HISTORY-SEMANTICS", "%s: %s" % (cname, v[1]), anchor.key)
+        elif v[0] is False:
+            R0.bad(F("HISTORY-SEMANTICS", anchor, "%s update histories" % cname, v[1]))
+        else:
+            R0.unknown("HISTORY-SEMANTICS", "%s update histories" % cname, anchor.key, v[1])
+        R = Result(P, "")
+        try:
+            _analyse_class(R, prog, cname, spec, ci)
+        except AnalysisError as e:
+            if v[0] is not True:
+                raise
+            R0.unknown("HISTORY-SEMANTICS", "%s representation shape" % cname, anchor.key,
+                       "shape not recognised (%s); the meaning of the fragment was confirmed by folding: %s" % (str(e)[:120], v[1]))
+        merge_filtered(R0, R, lambda f, v=v: v[1] if v[0] is True else None)
+    R = R0
+    if "CompleteBipartiteGraph" in _graph_fold.KINDS:
+        v = _graph_fold.verdict(prog, "CompleteBipartiteGraph")
+        cb = prog.cls(MOD, "CompleteBipartiteGraph")
+        anchor = cb.methods.get("has_edge") or next(iter(cb.methods.values()))
+        if v[0] is True:
+            R.ok("HISTORY-SEMANTICS", "CompleteBipartiteGraph: %s" % v[1], anchor.key)
+        elif v[0] is False:
+            R.bad(F("HISTORY-SEMANTICS", anchor, "CompleteBipartiteGraph views", v[1]))
+        else:
+            R.unknown("HISTORY-SEMANTICS", "CompleteBipartiteGraph views", anchor.key, v[1])
     check_misc(R, prog)
     check_bipartite_import(R, prog)
     from ._shared import check_no_shared_state
     check_no_shared_state(R, prog, P, ['cnfgen.graphs'], 100)
+
+
+FULL = {}
+
+
+def _analyse_class(R, prog, cname, spec, ci):
+    fields = set(spec["rows"] + [spec["set"]] + spec["order"])
+    if spec["counter"]:
+        fields.add(spec["counter"])
+    if spec.get("flag"):
+        fields.add(spec["flag"])
+    writers = {}
+    for mname, fi in ci.methods.items():
+        ev = extract_events(fi, fields)
+        if ev:
+            writers[mname] = (fi, ev)
+    R.count("mutator methods analysed", len(writers))
+    for need in ("__init__", "add_edge"):
+        if need not in writers:
+            raise AnalysisError("%s.%s writes no representation field (anchor vanished)" % (cname, need))
+    check_init(R, prog, cname, spec, *writers["__init__"])
+    roles = check_add_edge(R, prog, cname, spec, *writers["add_edge"])
+    for mname, (fi, ev) in sorted(writers.items()):
+        if mname in ("__init__", "add_edge"):
+            continue
+        if cname == "Graph" and mname == "remove_edge":
+            check_remove_edge(R, prog, cname, spec, fi, ev)
+        elif cname == "Graph" and mname == "update_vertex_number":
+            check_update_vertex_number(R, prog, cname, spec, fi, ev)
+        else:
+            check_generic_mutator(R, prog, cname, spec, fi, ev)
+    check_views(R, prog, cname, spec, ci, roles)
 
 
 # ------------------------------------------------------------------------------------------
